@@ -63,18 +63,23 @@ def expected_decision(home, name, targets, levels):
     return ("ambiguous", [targets[i] for i in M])
 
 
-def effective_levels(master):
-    """expert level that governs each parameter: its own, else the nearest enclosing scope's, else 0"""
-    out = []
+def parameters(master):
+    """the master's parameters as the property sees them: distinct dotted paths of the active definitions in
+    order of first occurrence, each with the expert level that governs it (its own, else the nearest enclosing
+    scope's, else 0; for a path occurring several times - a .multiple parameter - the first occurrence's)"""
+    paths, levels = [], []
     for loc in master.all_definitions():
+        if loc.path in paths:
+            continue
         o = loc.object
         lvl = o.expert_level
         p = o.primary_parent_scope
         while lvl is None and p is not None:
             lvl = p.expert_level
             p = p.primary_parent_scope
-        out.append(0 if lvl is None else lvl)
-    return out
+        paths.append(loc.path)
+        levels.append(0 if lvl is None else lvl)
+    return paths, levels
 
 
 def home_sx(h):
@@ -242,16 +247,18 @@ def render(spec, ind=""):
     return "\n".join(x for x in out if x != "")
 
 
-def gen_level(rng):
+def gen_level(rng, big=False):
     r = rng.random()
+    if big:  # masters whose levels are 100 or more apart: a worse match must still not win the tie-break
+        return None if r < 0.35 else rng.choice([0, 100, 200, 200, 300])
     if r < 0.55:
         return None
     if r < 0.97:
         return rng.choice([0, 1, 1, 2, 3])
-    return rng.choice([100, 150, 250, -1, 99])
+    return rng.choice([100, 150, 250, -1, 99, 200, 2 ** 41])
 
 
-def gen_objs(rng, depth, budget):
+def gen_objs(rng, depth, budget, big=False):
     n = rng.randint(1, 3)
     out = []
     for _ in range(n):
@@ -263,7 +270,7 @@ def gen_objs(rng, depth, budget):
             name = rng.choice(NAMES)
             if rng.random() < 0.12:
                 name = rng.choice(NAMES) + "." + name
-            d = ["d", name, rng.random() < 0.08, gen_level(rng), False]
+            d = ["d", name, rng.random() < 0.08, gen_level(rng, big), False]
             if rng.random() < 0.06:
                 d[4] = True
                 out.append(list(d))
@@ -271,16 +278,18 @@ def gen_objs(rng, depth, budget):
         elif r < 0.62:
             out.append(["i", "f.phil"])
         else:
-            out.append(["s", rng.choice(NAMES), rng.random() < 0.06, gen_level(rng), gen_objs(rng, depth + 1, budget)])
+            out.append(["s", rng.choice(NAMES), rng.random() < 0.06, gen_level(rng, big), gen_objs(rng, depth + 1, budget, big)])
     return out
 
 
-def gen_pathset(rng):
+def gen_pathset(rng, big=False):
     comps = ["a", "b", "ab"]
     k = rng.randint(2, 4)
     ps = []
     for _ in range(k):
         ps.append(".".join(rng.choice(comps) for _ in range(rng.randint(1, 3))))
+    if big:
+        return [["d", p, False, rng.choice([0, 200, 200, 300]), False] for p in ps]
     lv = rng.random() < 0.3
     return [["d", p, False, (rng.choice([0, 1, 2]) if lv else None), False] for p in ps]
 
@@ -315,7 +324,6 @@ class Decision(Stream):
     def __init__(self, ctx):
         super().__init__(ctx)
         self.fp = import_freephil()
-        self.open_kinds = {finding_kind(f) for f in vlib.load_findings(PID) if f.get("status") == "open"}
         self._m = {}
 
     # ---- masters
@@ -325,8 +333,8 @@ class Decision(Stream):
             text = render(spec)
             try:
                 m = self.fp.parse(text)
-                targets = [l.path for l in m.all_definitions()]
-                self._m[k] = (m, targets, effective_levels(m), vlib.obj_sx(m))
+                targets, levels = parameters(m)
+                self._m[k] = (m, targets, levels, vlib.obj_sx(m))
             except Exception as e:  # noqa
                 self._m[k] = (None, exc_class(e), None, None)
             if len(self._m) > 3000:
@@ -339,9 +347,10 @@ class Decision(Stream):
         fix = [s("s", [d("a", 1), s("b", [d("a")])], 2), s("t", [d("a")])]
         tie = [s("x", [d("a", 1)]), s("y", [d("a", 2)]), s("z", [d("ab")])]
         out = [
-            # known defect witnesses (in the property's domain only while listed open in known_findings.json)
-            {"m": [d("m", None, True), d("m", None, True)], "home": None, "arg": "m=3", "witness": "dup-path"},
-            {"m": [s("x", [d("b", 200)]), s("y", [d("b", 200)]), s("z", [d("ab")])], "home": None, "arg": "b=5", "witness": "outsider"},
+            # witnesses of repaired defects (F13, F20): must pass
+            {"m": [d("m", None, True), d("m", None, True)], "home": None, "arg": "m=3"},  # sets m (was: ambiguous between m and m)
+            {"m": [s("x", [d("b", 200)]), s("y", [d("b", 200)]), s("z", [d("ab")])], "home": None, "arg": "b=5"},  # ambiguous x.b / y.b (was: z.ab chosen)
+            {"m": [s("x", [d("m", 3, True), d("m", 1, True)]), s("y", [d("m", 2)])], "home": None, "arg": "m=1"},  # first occurrence's level governs
             # regression cases
             {"m": [d("a", None, False, True)], "home": None, "arg": "a=2"},  # no active definition: refused as unknown (was a ValueError)
             {"m": fix, "home": "s", "arg": "a=3"},
@@ -361,10 +370,11 @@ class Decision(Stream):
         return out
 
     def cases(self, rng, tier):
-        nmasters = 500 if tier == "quick" else 5000
+        nmasters = 500 if tier == "quick" else 4000
         per = 30 if tier == "quick" else 40
         for i in range(nmasters):
-            spec = gen_pathset(rng) if i % 2 else gen_objs(rng, 0, [rng.randint(2, 7)])
+            big = i % 8 in (3, 6)
+            spec = gen_pathset(rng, big) if i % 2 else gen_objs(rng, 0, [rng.randint(2, 7)], big)
             m, targets, levels, _ = self.master(spec)
             if m is None:
                 continue
@@ -433,7 +443,7 @@ class Decision(Stream):
                 warned.append(l[len("Assuming "):-len(" was intended.")])
         if sources is None:
             return ["argparse-error", end]
-        return [sources, warned, end, result, targets]
+        return [sources, warned, end, result, list(ai.target_paths or [])]
 
     def requests(self, case, o):
         if o[0] in ("master-error", "argparse-error"):
@@ -488,12 +498,7 @@ class Decision(Stream):
         if exp_end is None:
             exp_end = ["ok", chosen] if chosen else ["noeffect"]
         if end != exp_end or warned != exp_warned:
-            tag = ""
-            if end[0] == "ambiguous" and len(end[1]) > 1 and len(set(end[1])) == 1:
-                tag = "[dup-path] "
-            elif end[0] == "ok" and warned and exp_end[0] == "ambiguous":
-                tag = "[outsider] "
-            return "%sexpected %r with warnings %r, got %r with warnings %r" % (tag, exp_end, exp_warned, end, warned)
+            return "expected %r with warnings %r, got %r with warnings %r" % (exp_end, exp_warned, end, warned)
         if end[0] == "ok":
             # value transfer: the words reach the addressed parameter as (value, quote) pairs
             if [r[1] for r in result] != [s[1] for s in sources]:
@@ -501,15 +506,6 @@ class Decision(Stream):
         return None
 
     def in_domain(self, case):
-        if case.get("witness"):
-            return case["witness"] in self.open_kinds
-        m, targets, levels, _ = self.master(case["m"])
-        if m is None:
-            return True
-        if len(set(targets)) != len(targets):
-            return False  # F13: duplicate paths in target_paths
-        if levels and max(levels) - min(levels) >= 100:
-            return False  # F20: tie-break lets a worse match win when levels differ by >= 100
         return True
 
     def key(self, case, o):
@@ -535,7 +531,7 @@ class Decision(Stream):
                     yield objs[:i] + o[4] + objs[i + 1:]
                 if o[0] in "ds" and o[3] is not None:
                     yield objs[:i] + [o[:3] + [None] + o[4:]] + objs[i + 1:]
-        base = {k: v for k, v in case.items() if k != "witness"}
+        base = dict(case)
         for s in drops(spec):
             if s:
                 yield dict(base, m=s)
@@ -552,7 +548,7 @@ class Decision(Stream):
         if m is None:
             return
         scopes = sorted({".".join(t.split(".")[:k]) for t in targets for k in range(1, len(t.split(".")))})
-        base = {k: v for k, v in case.items() if k != "witness"}
+        base = dict(case)
         for h in [None] + scopes:
             for n in arg_names(rng, targets, scopes):
                 yield dict(base, home=h, arg=n + "=1")
@@ -718,31 +714,6 @@ class ProcessArgs(Stream):
                     yield dict(case, args=a[:i] + [x] + a[i:])
 
 
-# ----------------------------------------------------------------------------- known findings
-# known_findings.json entries are recognised by their "signature" field, else by id
-FINDING_KINDS = {"F13": "dup-path", "F20": "outsider"}
-
-
-def finding_kind(finding):
-    return finding.get("signature") or FINDING_KINDS.get(finding.get("id"))
-
-
-def match_finding(finding, failure):
-    """Recognise the signature of a recorded defect in a property failure of the decision stream."""
-    case, obs, what = failure.get("case"), failure.get("impl"), failure.get("what", "")
-    if not isinstance(case, dict) or "m" not in case or not isinstance(obs, list) or len(obs) != 5:
-        return False
-    end, targets = obs[2], obs[4]
-    kind = finding_kind(finding)
-    if kind == "dup-path":
-        # the same path listed twice among the targets; a full-path argument refused as ambiguous between equals
-        return (what.startswith("[dup-path]") and end[0] == "ambiguous" and len(end[1]) > 1 and len(set(end[1])) == 1
-                and targets.count(end[1][0]) > 1)
-    if kind == "outsider":
-        return what.startswith("[outsider]") and end[0] == "ok" and len(obs[1]) > 0
-    return False
-
-
 SPEC = {
     "clusters": ["CmdLine"],
     "streams": [StrOps, Score, Decision, ProcessArgs],
@@ -755,11 +726,11 @@ SPEC = {
             "shapes; distinct = distinct (master, home, argument); non-trivial = the argument parses; "
             "process_args: random argument lists over 25 argument texts (blank, --flag, --flag=v, name=value, bare words)",
     "trusted": ["Modelled: str.find/startswith/endswith, argument_interpreter.get_path_score, scope.all_definitions/_all_definitions "
-                "(paths, disabled and include skipping), recursive_expert_level, the selection logic of process_arg (max, count, "
+                "(paths, disabled and include skipping), the de-duplication of targets by path, recursive_expert_level, the selection logic of process_arg (max, count, "
                 "index, tie-break, Best matches list), the per-argument branching of process_args",
-                "The tie-break score - exp_lvl/100 is floating point in Python and integer (100*score - exp_lvl) in the model; the model "
-                "answers 'unmodelled' where the two are not known to agree (levels outside 0..99 combined with equal keys at different scores, "
-                "or |level| > 2^40)",
+                "The tie-break (score - exp_lvl/100 among the positions holding the best score, -inf elsewhere) is floating point in Python "
+                "and integer (100*score - exp_lvl, option Z with None = -inf) in the model; all competitors have the same score, so the "
+                "comparison is exact for |level| <= 2^40; the model answers 'unmodelled' when a competitor's level is outside that range",
                 "Oracle: os.path.isfile (the streams never name existing files)"],
     "modelled": "get_path_score, all_definitions, the choice logic of process_arg and the pre-processing of process_args are modelled by hand "
                 "in coq/theories/Model/CmdLine.v. NOT modelled in this check: freephil.parse of the argument (the real parser's source paths "
@@ -769,7 +740,6 @@ SPEC = {
                 "prints the same as fetching the individually interpreted arguments in order).",
     "assumptions": ["text restricted to code points < 256",
                     "primary_parent_scope chain of a master object = chain of enclosing scopes (true of trees built by the parser)",
-                    "expert levels are ints or None; tie-break theorems are about integer keys (exact for levels 0..99)",
+                    "expert levels are ints or None; tie-break theorems are about integer keys (exact for |level| <= 2^40)",
                     "custom_processor is None or collect_remaining; no argument names an existing file"],
-    "match_finding": match_finding,
 }
